@@ -176,7 +176,7 @@ func c18ParRun(kv map[string]string) string {
 	// one result without serial numbers / identities
 	tok := func(p interface{}, err error) string {
 		if err != nil {
-			if te, ok := err.(*tErr); ok {
+			if te, ok := asTErr(err); ok {
 				return "err." + te.kind
 			}
 			if isValidationErr(err) || strings.Contains(err.Error(), "error(s) decoding") {
@@ -196,7 +196,7 @@ func c18ParRun(kv map[string]string) string {
 	guard := func(f func() string) (res string) {
 		defer func() {
 			if r := recover(); r != nil {
-				if te, ok := r.(*tErr); ok {
+				if te, ok := asTErr(r); ok {
 					res = "panic." + te.kind
 				} else if e, ok := r.(error); ok && (isValidationErr(e) || strings.Contains(e.Error(), "error(s) decoding")) {
 					res = "panic.fill"
